@@ -151,9 +151,24 @@ def run_module(unit, path, module, seed, use_cache=True):
                         wall=c.get('wall', 0.0), cached=True)
         except Exception:
             pass
-    res = runverus.run_verus_path(path, rlimit=30, module=module)
+    # functions marked `fnmode` are verified on their own, concurrently with the module run (whose verdict on them is ignored)
+    fnmode = [f for f in unit.fns if f.module == module and f.fnmode and not f.external_body]
+    with cf.ThreadPoolExecutor(max_workers=1 + len(fnmode)) as ex:
+        fut_mod = ex.submit(runverus.run_verus_path, path, 30, 20, None, module)
+        fut_fns = [(f, ex.submit(runverus.run_verus_path, path, 30, 20, ['--verify-function', verus_fn_name(f.addr)], module)) for f in fnmode]
+        res = fut_mod.result()
+        fn_results = [(f, fu.result()) for (f, fu) in fut_fns]
     fails, und, hard = runverus.classify(unit, res, path)
     unstable = []
+    for f, rf in fn_results:
+        ff, uf, hf = runverus.classify(unit, rf, path)
+        vrf = ((rf.get('summary') or {}).get('verification-results') or {})
+        if hf or not (ff or uf or (vrf.get('verified') or 0) >= 1):
+            continue   # the separate run could not be made: keep the module run's verdict on this function
+        fails = [r for r in fails if r.get('addr') != f.addr] + ff
+        und = [r for r in und if r.get('addr') != f.addr] + uf
+        if not hard:
+            res = dict(res, summary=dict(res.get('summary') or {}, **{'fnmode-' + f.addr: vrf}))
     # stability policy (DESIGN 3.4): a function whose proof ran out of resources is re-run ON ITS OWN (fresh solver instance,
     # proof context pruned to what the function uses, 4x the default resource limit, another random seed).  If a re-run proves it,
     # it is proved (the instability is recorded); failures found by a re-run are kept; only if no re-run decides it does it stay
